@@ -159,6 +159,13 @@ func (c06Engine) Run(sci interface{}, ctx *RunCtx) *Finding {
 	if !sc.Optimize {
 		opts = append(opts, expr.Optimize(false))
 	}
+	if sc.Optimize && mayPrebuild(sc.Tree) {
+		// A literal range or all-constant array may be built at compile time by
+		// the optimiser; whether it is "built during evaluation" then depends on
+		// the optimiser, so it is not a C06 workload (only shrinking produces these).
+		ctx.Count("skipped_constant_collection", 1)
+		return nil
+	}
 	prog, co := sutCompile(src, opts...)
 	if co.Failed() {
 		return &Finding{Class: "C06/compile-rejected", Detail: "Compile rejected a well-typed program of the fragment: " + co.ErrText() + "\nsource: " + src}
@@ -167,7 +174,8 @@ func (c06Engine) Run(sci interface{}, ctx *RunCtx) *Finding {
 	ref := NewRef(BuildEnv(wr, sc.Env))
 	refV, refErr := ref.Eval(sc.Tree)
 	if refErr != nil {
-		infra("C06 workload fails in the reference evaluator: %s (%s)", refErr.Msg, src)
+		// Shrinking can produce such workloads; they are not C06 workloads.
+		return nil
 	}
 	T := 0
 	desc := 0
@@ -244,6 +252,45 @@ func (c06Engine) Run(sci interface{}, ctx *RunCtx) *Finding {
 	}
 	ctx.Sample(map[string]interface{}{"source": src, "allocation_trace": ref.Allocs, "total": T, "budgets": sc.Budgets, "optimize": sc.Optimize})
 	return nil
+}
+
+// constOnly: the subtree mentions nothing but literals and arithmetic on them.
+func constOnly(n *N) bool {
+	switch n.K {
+	case "int", "str", "bool":
+		return true
+	case "un":
+		return constOnly(n.C[0])
+	case "bin":
+		if n.S == ".." {
+			return false
+		}
+		return constOnly(n.C[0]) && constOnly(n.C[1])
+	}
+	return false
+}
+
+// mayPrebuild: the tree contains a collection the optimiser may build at
+// compile time (a range with constant bounds, an array literal of constants).
+func mayPrebuild(root *N) bool {
+	found := false
+	root.Walk(func(n *N) {
+		if n.K == "bin" && n.S == ".." && constOnly(n.C[0]) && constOnly(n.C[1]) {
+			found = true
+		}
+		if n.K == "arr" && len(n.C) > 0 {
+			all := true
+			for _, c := range n.C {
+				if !constOnly(c) {
+					all = false
+				}
+			}
+			if all {
+				found = true
+			}
+		}
+	})
+	return found
 }
 
 // nestedAlloc: an allocating construct inside a closure body.
